@@ -453,6 +453,8 @@ def deck_features():
     F["footer"] = [dict(title=v(), body=[[("t", v())]], footer=x("HF"))]
     F["two-textboxes"] = [dict(title=v(), body=[[("t", v())]], extra=[[("t", v())]])]
     F["subtitle"] = [dict(title=v(), subtitle=v(), body=[[("t", v())]])]
+    F["object-and-unknown-placeholders"] = [dict(title=v(), body=[[("t", v())]], placeholders=[("obj", v()), ("chart", v()), ("sldNum", v())])]
+    F["date-and-header-placeholders"] = [dict(title=v(), body=[[("t", v())]], placeholders=[("dt", x("HF")), ("hdr", x("HF"))])]
     return F
 
 
@@ -466,6 +468,7 @@ def deck_spec(slides, tables_in_text=True):
             out.append(s["subtitle"])
         out.extend(inline_spec(p) for p in s["body"])
         out.extend(inline_spec(p) for p in s.get("extra", []))
+        out.extend(t for k, t in s.get("placeholders", []) if k not in ("dt", "hdr", "ftr", "sldImg"))
         if s.get("subtitle") and not tables_in_text:
             out.append(s["subtitle"])
         if tables_in_text and s.get("table"):
@@ -508,6 +511,8 @@ def render_pptx(slides):
             shapes.append(pptx_shape(4, "subTitle", [[("t", s["subtitle"])]], 500))
         if s.get("extra"):
             shapes.append(pptx_shape(5, None, s["extra"], 2000))
+        for k, (pht, tok) in enumerate(s.get("placeholders", [])):
+            shapes.append(pptx_shape(20 + k, pht, [[("t", tok)]], 2500 + 10 * k))
         if s.get("table"):
             rows = "".join("<a:tr>" + "".join(f"<a:tc><a:txBody><a:bodyPr/><a:p><a:r><a:t>{c}</a:t></a:r></a:p></a:txBody></a:tc>" for c in r) + "</a:tr>" for r in s["table"])
             shapes.append('<p:graphicFrame><p:nvGraphicFramePr><p:cNvPr id="6" name="t"/><p:cNvGraphicFramePr/><p:nvPr/></p:nvGraphicFramePr>'
@@ -554,8 +559,8 @@ def odp_par(p, style):
 def render_odp(slides):
     pages = []
     for n, s in enumerate(slides, 1):
-        if s.get("footer"):
-            raise Unsupported("odp footer")
+        if s.get("footer") or s.get("placeholders"):
+            raise Unsupported("odp footer / placeholder types")
         fr = [f'<draw:frame presentation:class="title" svg:x="1cm" svg:y="1cm"><draw:text-box>{odp_par([("t", s["title"])], "TitleText")}</draw:text-box></draw:frame>',
               '<draw:frame presentation:class="outline" svg:x="1cm" svg:y="4cm"><draw:text-box>' + "".join(odp_par(p, "BodyText") for p in s["body"]) + "</draw:text-box></draw:frame>"]
         if s.get("subtitle"):
